@@ -139,6 +139,9 @@ def configurations(tier, seed):
         if nm in ("restr",):
             continue
         cfgs.append(Cfg(f"a_{nm}", F, [v], note={"variable": "variable(w), scalar", "rule": nm}))
+    # the coefficient under the variable also occurs outside it: held fixed
+    cfgs.append(Cfg("a_outside_coef", v * w + ufl.sin(w) * v * v, [v],
+                    note={"variable": "variable(w), scalar", "rule": "bare w outside the variable"}))
     ve = variable(w * f + g)
     for nm, F in [("mul", ve * ve * w), ("sin", ufl.sin(ve) * f), ("div", f / ve), ("pow", ve ** w),
                   ("outside", ve * (w * f + g)), ("cond", conditional(gt(ve, f), ve * ve, w)),
@@ -155,7 +158,11 @@ def configurations(tier, seed):
     i, j = ufl.indices(2)
     for nm, F in [("comp", vv[0] * vv[1] * vv[1]), ("inner", inner(vv, vv)), ("isum", vv[i] * hv[i] * vv[0]),
                   ("vecval", as_vector([vv[0] * vv[1], ufl.sin(vv[1])])), ("ct", as_vector(vv[i] * vv[i] * hv[j], j)),
-                  ("outer", ufl.outer(vv, hv)), ("ident", vv), ("dotsin", ufl.sin(dot(vv, hv)))]:
+                  ("outer", ufl.outer(vv, hv)), ("ident", vv), ("dotsin", ufl.sin(dot(vv, hv))),
+                  # indexing a tensor whose derivative is not symmetric (component order of d/dv)
+                  ("idx_lt", as_vector([vv[0] * vv[1], ufl.sin(vv[1])])[0] * vv[1]),
+                  ("idx_ct", as_vector(vv[i] * vv[i] * hv[j] * vv[0], j)[1]),
+                  ("idx_mat", dot(sc((2, 2)), vv)[0] * hv[1]), ("idx_free", as_vector([vv[0] * vv[1], vv[1]])[i] * hv[i])]:
         cfgs.append(Cfg(f"d_{nm}", F, [vv], note={"variable": "variable(w), vector (2,)", "rule": nm}))
     v3 = variable(sc((3,)))
     cfgs.append(Cfg("d_cross", ufl.cross(v3, sc((3,)))[0] * v3[2], [v3], note={"variable": "vector (3,)"}))
